@@ -54,10 +54,12 @@ class Ctx:
 
 
 def engine(prog, inline=None, extra=None, unroll=1, **kw):
-    s = dict(summaries.BASE)
+    s = {}
     if extra:
-        # obligation-specific summaries take precedence
-        s = dict(list(extra.items()) + list(s.items()))
+        # obligation-specific summaries take precedence (also over BASE entries with the same pattern)
+        s.update(extra)
+    for k, v in summaries.BASE.items():
+        s.setdefault(k, v)
     if isinstance(inline, str):
         pat = inline
         inl = lambda c, t: bool(re.search(pat, t.name))
